@@ -38,39 +38,49 @@ static float kv_subm_rows[KV_NSYM][KV_NSYM];
 static float* kv_subm_ptr[KV_NSYM];
 static struct aln_param kv_ap;
 static uint8_t kv_a[KV_ROWS + 1];
-static uint8_t kv_b[KV_LB + 1];
+/* one pad byte in front of b: the forward kernels do `seq2--` (they index b from 1), which forms a pointer one element
+   before the array -- never dereferenced, but outside the object for CBMC's pointer-arithmetic check (see DESIGN.md, OBS-1) */
+static uint8_t kv_b_store[KV_LB + 2];
+#define kv_b (kv_b_store + 1)
 
-static float kv_score(void)
-{
-        float f = kv_in_float();
-        KV_ASSUME(f >= -1000.0f && f <= 1000.0f);
-        return f;
-}
-static float kv_pen(void)
-{
-        float f = kv_in_float();
-        KV_ASSUME(f >= 0.0f && f <= 1000.0f);
-        return f;
-}
-static float kv_state(void)
-{
-        float f = kv_in_float();
-        KV_ASSUME(f == NEG || (f >= -100000.0f && f <= 100000.0f));
-        return f;
-}
+/* Parameter sets (concrete, shape parameter KV_PSET): 0 = dna (5/-4, 8/6/0), 1 = internal (5/-4, 8/6/8),
+ * 2 = a 3x3 corner of CorBLOSUM66_13plus with 5.5/2/1.  Boundary state (KV_IN): the unit vectors the Hirschberg
+ * recursion uses: 0 = (0,-,-), 1 = (-,0,-), 2 = (-,-,0).  Residues are symbolic codes 0..2.                      */
+#ifndef KV_PSET
+#define KV_PSET 0
+#endif
+#ifndef KV_IN
+#define KV_IN 0
+#endif
+static const float kv_psets[3][3][3] = {
+        { { 5,-4,-4}, {-4, 5,-4}, {-4,-4, 5} },
+        { { 5,-4,-4}, {-4, 5,-4}, {-4,-4, 5} },
+        { { 5,-1,-1}, {-1, 6, 0}, {-1, 0, 6} },
+};
+static const float kv_pens[3][3] = { {8, 6, 0}, {8, 6, 8}, {5.5f, 2, 1} };
+
+static float kv_state(void){ return 7.25f; }   /* stale array contents: an arbitrary concrete value */
 
 static void kv_setup_params(void)
 {
         int i, j;
         for(i = 0; i < KV_NSYM; i++){
-                for(j = 0; j < KV_NSYM; j++){ kv_subm_rows[i][j] = kv_score(); }
+                for(j = 0; j < KV_NSYM; j++){ kv_subm_rows[i][j] = kv_psets[KV_PSET][i][j]; }
                 kv_subm_ptr[i] = kv_subm_rows[i];
         }
         kv_ap.subm = kv_subm_ptr;
-        kv_ap.gpo = kv_pen(); kv_ap.gpe = kv_pen(); kv_ap.tgpe = kv_pen();
+        kv_ap.gpo = kv_pens[KV_PSET][0]; kv_ap.gpe = kv_pens[KV_PSET][1]; kv_ap.tgpe = kv_pens[KV_PSET][2];
         kv_ap.nthreads = 1; kv_ap.score = 0.0f;
         for(i = 0; i < KV_ROWS; i++){ kv_a[i] = kv_in_u8(); KV_ASSUME(kv_a[i] < KV_NSYM); }
         for(i = 0; i < KV_LB; i++){ kv_b[i] = kv_in_u8(); KV_ASSUME(kv_b[i] < KV_NSYM); }
+}
+static struct states kv_in_state(void)
+{
+        struct states in;
+        in.a  = (KV_IN == 0) ? 0.0f : -FLT_MAX;
+        in.ga = (KV_IN == 1) ? 0.0f : -FLT_MAX;
+        in.gb = (KV_IN == 2) ? 0.0f : -FLT_MAX;
+        return in;
 }
 
 /* ------------------------------------------------------------------ the recurrence, full matrix */
@@ -118,7 +128,7 @@ void h_c07_fwd_ref(void)
         struct states in;
         int j;
         kv_setup_params();
-        in.a = kv_state(); in.ga = kv_state(); in.gb = kv_state();
+        in = kv_in_state();
         for(j = 0; j < KV_LB + 2; j++){ f[j].a = kv_state(); f[j].ga = kv_state(); f[j].gb = kv_state(); }   /* stale contents */
         f[0] = in;
         m.f = f; m.b = NULL; m.seq1 = kv_a; m.seq2 = kv_b; m.prof1 = NULL; m.prof2 = NULL; m.ap = &kv_ap;
@@ -141,10 +151,11 @@ void h_c07_bwd_mirror(void)
         struct aln_mem m, mm;
         struct states f[KV_LB + 2], b[KV_LB + 2];
         struct states in;
-        uint8_t ra[KV_ROWS + 1], rb[KV_LB + 1];
+        uint8_t ra[KV_ROWS + 1], rb_store[KV_LB + 2];
+        uint8_t* rb = rb_store + 1;
         int j;
         kv_setup_params();
-        in.a = kv_state(); in.ga = kv_state(); in.gb = kv_state();
+        in = kv_in_state();
         for(j = 0; j < KV_LB + 2; j++){ b[j].a = kv_state(); b[j].ga = kv_state(); b[j].gb = kv_state(); f[j] = b[j]; }
         b[0] = in; f[0] = in;
         /* the real backward pass on rows [0,KV_ROWS) x columns [KV_SB,KV_EB] */
